@@ -74,8 +74,20 @@ Render(ts) == RenderFrom(ts, 1, <<>>)
 RECURSIVE HdList(_, _)
 HdList(ts, i) == IF i > Len(ts) THEN <<>> ELSE ts[i].hd \o HdList(ts, i + 1)
 
+(* the multi-line form of the same program: every ; that may be a newline   *)
+(* is one, and a newline follows every token after which the grammar allows *)
+(* a linebreak (pending here-document bodies move to the first newline)     *)
+NLTok == [t |-> "\n", gap |-> "sp", lb |-> TRUE, semi |-> FALSE, hd |-> <<>>, nlk |-> "lb"]
+RECURSIVE MLFrom(_, _)
+MLFrom(ts, i) ==
+    IF i > Len(ts) THEN <<>>
+    ELSE LET t    == IF ts[i].semi THEN [ts[i] EXCEPT !.t = "\n"] ELSE ts[i]
+             nlnx == i < Len(ts) /\ (IsNL(ts[i + 1]) \/ ts[i + 1].semi)
+         IN  <<t>> \o (IF ts[i].lb /\ ~IsNL(t) /\ ~nlnx THEN <<NLTok>> ELSE <<>>) \o MLFrom(ts, i + 1)
+MultiLine(ts0) == Render(WithPre(MLFrom(ts0, 1)))
+
 CaseRec == LET ts == WithPre(toks) IN
-           [src |-> Render(ts), sk |-> sk, dev |-> dev, drv |-> drv, ntok |-> Len(toks), hd |-> HdList(ts, 1)]
+           [src |-> Render(ts), ml |-> MultiLine(toks), sk |-> sk, dev |-> dev, drv |-> drv, ntok |-> Len(toks), hd |-> HdList(ts, 1)]
 
 EmitCase == Complete => PrintT(<<"CASE", ToJson(CaseRec)>>)
 
@@ -105,8 +117,6 @@ Variant(kind, at, ts, comments) == [kind |-> kind, at |-> at, src |-> Render(ts)
 InsAfter(ts, i, t) == SubSeq(ts, 1, i) \o <<t>> \o SubSeq(ts, i + 1, Len(ts))   \* after position i
 
 Repre(ts) == WithPre(ts)
-
-NLTok == [t |-> "\n", gap |-> "sp", lb |-> TRUE, semi |-> FALSE, hd |-> <<>>, nlk |-> "lb"]
 
 Variants(ts0) ==
     LET ts == WithPre(ts0)
